@@ -279,7 +279,7 @@ var c15Vals2 = []uint16{0, 1, 2, 3, 4, 5, 7, 8, 9, 11, 12, 16, 0x7fff, 0x8000, 0
 
 func c15Fixtures() [][2]any {
 	var out [][2]any
-	filepath.Walk("/repo", func(p string, info os.FileInfo, err error) error {
+	filepath.Walk(repoDir(), func(p string, info os.FileInfo, err error) error {
 		if err != nil || info.IsDir() || info.Size() > 96<<10 || strings.Contains(p, "/.git/") {
 			return nil
 		}
